@@ -2,30 +2,30 @@
   GfsModel.ExpectedSrc — per property, the digest of the fingerprints of the declarations of /repo its model and
   specification were written from (one hash per function / type / var / const with comments and layout not counted,
   one per C++ file; see tools/gofacts), recorded by tools/mkexpected.py when the model was last aligned with the
-  code (/repo at 0461a13). GfsGen/Facts.lean carries the digests re-extracted on every run; the theorems
+  code (/repo at 0aa7b19). GfsGen/Facts.lean carries the digests re-extracted on every run; the theorems
   Cxx_source in GfsProps prove them equal. ExpectedSrc.json lists the hashes behind each digest.
 -/
 namespace Gfs
 
-def expectedSourceDigestC01 : String := "3853c0c70e739ffc"
-def expectedSourceDigestC02 : String := "3853c0c70e739ffc"
-def expectedSourceDigestC03 : String := "95a1d4c974c4a76c"
-def expectedSourceDigestC04 : String := "95a1d4c974c4a76c"
-def expectedSourceDigestC05 : String := "da7fabdb95d0d537"
-def expectedSourceDigestC06 : String := "e75584ab8617f9a2"
-def expectedSourceDigestC07 : String := "e75584ab8617f9a2"
-def expectedSourceDigestC08 : String := "3853c0c70e739ffc"
-def expectedSourceDigestC09 : String := "f57991e1d1176d95"
+def expectedSourceDigestC01 : String := "23ad038ee6c10851"
+def expectedSourceDigestC02 : String := "23ad038ee6c10851"
+def expectedSourceDigestC03 : String := "cd07b57d0b72fdf6"
+def expectedSourceDigestC04 : String := "cd07b57d0b72fdf6"
+def expectedSourceDigestC05 : String := "787f5eecd0019a2e"
+def expectedSourceDigestC06 : String := "98435061cba72da3"
+def expectedSourceDigestC07 : String := "98435061cba72da3"
+def expectedSourceDigestC08 : String := "23ad038ee6c10851"
+def expectedSourceDigestC09 : String := "9b1c44b01b7453ea"
 def expectedSourceDigestC10 : String := "c31c101567f36241"
-def expectedSourceDigestC11 : String := "3bd0516427fc8e59"
-def expectedSourceDigestC12 : String := "95a1d4c974c4a76c"
-def expectedSourceDigestC13 : String := "d8e254c32a8556c8"
-def expectedSourceDigestC14 : String := "95a1d4c974c4a76c"
-def expectedSourceDigestC15 : String := "bd04fd902c6467ba"
-def expectedSourceDigestC16 : String := "bd04fd902c6467ba"
-def expectedSourceDigestC17 : String := "a0d3f67602d08a8c"
-def expectedSourceDigestC18 : String := "ce7059884f105e4c"
-def expectedSourceDigestC19 : String := "002d8ea52dad27cb"
+def expectedSourceDigestC11 : String := "17da63e009ca68df"
+def expectedSourceDigestC12 : String := "cd07b57d0b72fdf6"
+def expectedSourceDigestC13 : String := "c8b835d137359e48"
+def expectedSourceDigestC14 : String := "cd07b57d0b72fdf6"
+def expectedSourceDigestC15 : String := "23ad4076c596635f"
+def expectedSourceDigestC16 : String := "23ad4076c596635f"
+def expectedSourceDigestC17 : String := "e2f4f4aa18c8182f"
+def expectedSourceDigestC18 : String := "a1acd53f6c91ec68"
+def expectedSourceDigestC19 : String := "97f9b701f17ec43b"
 def expectedSourceDigestC20 : String := "658897532d70f619"
 
 end Gfs
